@@ -1028,6 +1028,8 @@ package nutsdb
 //@   branch 7: iff[C01,C03] hasPrefix(string(n.Keys[i]), string(prefix))
 //@   at stored keys: assert[C01,C03] len(keys) > 0 ==> keys[len(keys) - 1] == n.Keys[i] && hasPrefix(string(n.Keys[i]), string(prefix)) && coff >= offsetNum
 //@   at stored pointers: assert[C01,C03] len(pointers) > 0 ==> pointers[len(pointers) - 1] == n.pointers[i]
+//@   at stored coff: assert[C03] coff > 0 ==> liveRec(ifaceval(n.pointers[i], Record))
+//@   at stored numFound: assert[C03] numFound > 0 ==> liveRec(ifaceval(n.pointers[i], Record))
 
 //@ func BPTree.PrefixSearchScan
 //@   requires t != nil && nodesOK(t)
@@ -1057,6 +1059,7 @@ package nutsdb
 //@   at stored keys: assert[C01,C03] len(keys) > 0 ==> keys[len(keys) - 1] == n.Keys[i] && hasPrefix(string(n.Keys[i]), string(prefix)) && coff >= offsetNum &&
 //@        (exists r string :: concat(string(prefix), r) == string(n.Keys[i]) && reMatch(rgx, r))
 //@   at stored pointers: assert[C01,C03] len(pointers) > 0 ==> pointers[len(pointers) - 1] == n.pointers[i]
+//@   at stored numFound: assert[C03] numFound > 0 ==> liveRec(ifaceval(n.pointers[i], Record))
 
 //@ func Tx.prefixScanByHintBPTSparseIdx
 //@   assumed sparse-mode prefix scan (C02/C03 sparse part, not yet under contract)
